@@ -135,6 +135,11 @@ let () =
     | [id; "D"; k; a; c] ->
       let kind = (match k with "artifact" -> KArtifact | "index" -> KIndex | _ -> KImage) in
       Printf.printf "%s D %d\n" id (int_of_n (referrer_art kind (n_of_int (int_of_string a)) (n_of_int (int_of_string c))))
+    | id :: "P" :: ops ->
+      (* Pool.Get (g<i>) / release (r<i>) in lock order: for every Get, was a fresh Merge created?
+         (N = fresh: nobody held the entry; S = the entry the holders have) *)
+      let fr = pool_trace None (List.map (fun o -> o.[0] = 'g') ops) in
+      Printf.printf "%s P %s\n" id (String.concat "" (List.map (fun b -> if b then "N" else "S") fr))
     | [id; "E"; n] -> Printf.printf "%s E %s\n" id n
     | [id; "S"; n] -> Printf.printf "%s S %s\n" id n
     | [] -> ()
